@@ -56,6 +56,9 @@
                             margins) — so for every LP oracle that answers None only on infeasible systems the
                             mirror answers True.
        eucl_algo_verdict_exact : for every sound and complete LP oracle, eucl_algo_verdict = eucl_decide.
+       eucl_algo_exact_verdict : the EXTRACTED mirror (LP oracle = Fourier-Motzkin with back-substitution, fm_solve_sound /
+                            fm_solve_complete, rescaled to the margins, lp_checked_complete) decides 1-Euclideanness
+                            exactly: eucl_algo_verdict lp_checked = eucl_decide, no hypothesis on the oracle.
    What is NOT proved: that the implementation equals the mirror (it is tied to the theorems by the correspondence:
    its verdict is compared with eucl_decide and with the extracted mirror on every generated profile with m <= 6,
    n <= 12; its True answers are run through eucl_check at every size; beyond those sizes verdicts are checked on
@@ -65,7 +68,7 @@
 From Coq Require Import List NArith ZArith QArith Qabs Bool Permutation Sorted.
 From PrefVerif Require Import Lib.Val Lib.Contig Model.SP Model.SC Model.SCAlgo Model.Euclid Model.EuclidLP Model.EuclidAlgo
                               Proofs.SP Proofs.SC Proofs.Euclid Proofs.EuclidLP Proofs.EuclidAlgo
-                              Proofs.EuclidAlgoOrder Proofs.EuclidAlgoComplete.
+                              Proofs.EuclidAlgoOrder Proofs.EuclidAlgoComplete Proofs.EuclidLPSolve.
 Import ListNotations.
 Open Scope Q_scope.
 
@@ -236,7 +239,8 @@ Print Assumptions eucl_algo_order_independent.
 (* ---- completeness of the mirrored algorithm ------------------------------------------------------------------- *)
 Theorem eucl_algo_complete : forall lp alts orders,
   (* the LP oracle answers None only on infeasible systems *)
-  (forall prefs axis, (exists vs xs, lp_sat prefs axis vs xs) -> lp prefs axis <> None) ->
+  (forall prefs axis, NoDup axis -> Forall (fun r => Permutation axis r) prefs ->
+     (exists vs xs, lp_sat prefs axis vs xs) -> lp prefs axis <> None) ->
   NoDup alts /\ NoDup orders /\ Forall (fun o => Permutation alts o) orders -> orders <> [] -> alts <> [] ->
   Euclidean orders -> exists y, eucl_algo lp alts orders = Ok (Some y).
 Proof. exact Proofs.EuclidAlgoComplete.eucl_algo_complete. Qed.
@@ -244,11 +248,19 @@ Print Assumptions eucl_algo_complete.
 
 Theorem eucl_algo_verdict_exact : forall lp alts orders,
   (forall prefs axis vs xs, lp prefs axis = Some (vs, xs) -> lp_sat prefs axis vs xs) ->
-  (forall prefs axis, (exists vs xs, lp_sat prefs axis vs xs) -> lp prefs axis <> None) ->
+  (forall prefs axis, NoDup axis -> Forall (fun r => Permutation axis r) prefs ->
+     (exists vs xs, lp_sat prefs axis vs xs) -> lp prefs axis <> None) ->
   NoDup alts /\ NoDup orders /\ Forall (fun o => Permutation alts o) orders -> orders <> [] -> alts <> [] ->
   eucl_algo_verdict lp alts orders = eucl_decide alts orders.
 Proof. exact Proofs.EuclidAlgoComplete.eucl_algo_verdict_exact. Qed.
 Print Assumptions eucl_algo_verdict_exact.
+
+(* the extracted mirror (c19.algo) is exact: its LP oracle is proved sound and complete on the systems the mirror builds *)
+Theorem eucl_algo_exact_verdict : forall alts orders,
+  NoDup alts /\ NoDup orders /\ Forall (fun o => Permutation alts o) orders -> orders <> [] -> alts <> [] ->
+  eucl_algo_verdict lp_checked alts orders = eucl_decide alts orders.
+Proof. exact Proofs.EuclidLPSolve.eucl_algo_exact_verdict. Qed.
+Print Assumptions eucl_algo_exact_verdict.
 
 (* the first step of the completeness proof, kept for reference: the precheck passes *)
 Theorem eucl_algo_complete_partial : forall alts orders,
